@@ -23,15 +23,16 @@ import (
 )
 
 type c10Fut struct {
-	Inner    bool // created by f0's body instead of by the creator thread (its context derives from f0's)
-	Idx      int
-	Body     string
-	Tok      int
-	SleepMs  int
-	Spin     int
-	Src      string
-	Normal   string // canonical normal outcome ("" when not known a priori)
-	NormalOK bool
+	Inner     bool // created by f0's body instead of by the creator thread (its context derives from f0's)
+	Idx       int
+	Body      string
+	Tok       int
+	SleepMs   int
+	Spin      int
+	Src       string
+	Normal    string // canonical normal outcome ("" when not known a priori)
+	NormalOK  bool
+	NormalErr bool // the normal outcome is delivered as an error (the body throws)
 }
 
 type c10Op struct {
@@ -55,8 +56,8 @@ func (c10) ID() string { return "C10" }
 
 func init() { register(c10{}) }
 
-var c10Bodies = []string{"val", "gate-ctx", "gate-ign", "throw", "sleep", "spin", "fail", "deref-other", "nil", "false", "coll", "gate-then-throw", "call-fn", "nested-future"}
-var c10BodyW = []int{3, 4, 3, 2, 3, 2, 1, 1, 1, 1, 1, 2, 1, 1}
+var c10Bodies = []string{"val", "gate-ctx", "gate-ign", "throw", "sleep", "spin", "fail", "deref-other", "nil", "false", "coll", "gate-then-throw", "call-fn", "nested-future", "error-value", "error-value-gate"}
+var c10BodyW = []int{3, 4, 3, 2, 3, 2, 1, 1, 1, 1, 1, 2, 1, 1, 2, 1}
 var c10OpKinds = []string{"deref", "done?", "cancelled?", "cancel", "deref-deadline", "nap"}
 var c10OpW = []int{5, 4, 3, 2, 3, 1}
 
@@ -283,7 +284,7 @@ func (c10) Run(tp *Tape, opt RunOpt) *RunOut {
 		case "val":
 			f.Src, f.Normal, f.NormalOK = "(future "+tr+" "+k+")", k, true
 		case "throw":
-			f.Src, f.Normal, f.NormalOK = "(future "+tr+" (throw "+k+"))", "#thrown<"+k+">", true
+			f.Src, f.Normal, f.NormalOK, f.NormalErr = "(future "+tr+" (throw "+k+"))", "#thrown<"+k+">", true, true
 		case "fail":
 			f.Src = "(future " + tr + " (+ 1 \"x" + k + "\"))"
 		case "gate-ctx":
@@ -307,10 +308,16 @@ func (c10) Run(tp *Tape, opt RunOpt) *RunOut {
 		case "coll":
 			f.Src, f.Normal, f.NormalOK = "(future "+tr+" (list "+k+" [1 2] {:k "+k+"}))", "("+k+" [1 2] {:k "+k+"})", true
 		case "gate-then-throw":
-			f.Src, f.Normal, f.NormalOK = "(future "+tr+" (gate! \"g"+k+"\") (throw "+k+"))", "#thrown<"+k+">", true
+			f.Src, f.Normal, f.NormalOK, f.NormalErr = "(future "+tr+" (gate! \"g"+k+"\") (throw "+k+"))", "#thrown<"+k+">", true, true
 			gates = append(gates, "g"+k)
 		case "call-fn":
 			f.Src, f.Normal, f.NormalOK = "(future-call (fn [] (do "+tr+" (spin 3) "+k+")))", k, true
+		case "error-value":
+			// completes normally; its value happens to be an error object
+			f.Src, f.Normal, f.NormalOK = "(future "+tr+" (try (nth [1 2] "+k+") (catch e e)))", "#goerr<nth: index out of range>", true
+		case "error-value-gate":
+			f.Src, f.Normal, f.NormalOK = "(future "+tr+" (gate! \"g"+k+"\") (try (throw (go-error \"ge"+k+"\")) (catch e e)))", "#goerr<ge"+k+">", true
+			gates = append(gates, "g"+k)
 		case "nested-future":
 			f.Src, f.Normal, f.NormalOK = "(future "+tr+" @(future (do (spin 2) "+k+")))", k, true
 		}
@@ -512,7 +519,11 @@ func (c10) Run(tp *Tape, opt RunOpt) *RunOut {
 		out.Discard = "aborted:" + s.Aborted
 	}
 	line := func(r *rec) string {
-		return "[" + strconv.FormatUint(r.inv, 10) + "," + strconv.FormatUint(r.ret, 10) + "] " + r.op.ID + " " + r.op.Src + " -> " + r.res
+		arrow := " -> "
+		if r.isErr {
+			arrow = " -> error "
+		}
+		return "[" + strconv.FormatUint(r.inv, 10) + "," + strconv.FormatUint(r.ret, 10) + "] " + r.op.ID + " " + r.op.Src + arrow + r.res
 	}
 	if s.Aborted == "" && out.Discard == "" {
 		for i, f := range w.futs {
@@ -579,6 +590,10 @@ func (c10) Run(tp *Tape, opt RunOpt) *RunOut {
 				if bodyRet[i] == 0 || d.ret < bodyRet[i] {
 					viol("O3-early-outcome", "deref-before-body-finished", "deref returned an outcome before the body finished evaluating: "+line(d)+" (body returned at "+strconv.FormatUint(bodyRet[i], 10)+")")
 				}
+				if f.NormalOK && d.res == f.Normal && d.isErr != f.NormalErr {
+					how := map[bool]string{true: "thrown as an error", false: "returned as a value"}
+					viol("O2-outcome", "value-and-error-confused", "the outcome of "+fn+" (body: "+f.Src+") was "+how[d.isErr]+" by this deref but the body "+map[bool]string{true: "threw it", false: "returned it as its value"}[f.NormalErr]+": "+line(d))
+				}
 				if f.NormalOK && d.res != f.Normal {
 					if !(d.isErr && cancellable && strings.Contains(d.res, "timeout")) {
 						sig := "wrong-outcome"
@@ -590,7 +605,7 @@ func (c10) Run(tp *Tape, opt RunOpt) *RunOut {
 				}
 			}
 			for k := 1; k < len(outcomes); k++ {
-				if outcomes[k].res != outcomes[0].res {
+				if outcomes[k].res != outcomes[0].res || outcomes[k].isErr != outcomes[0].isErr {
 					viol("O2-same-outcome", "derefs-disagree", "two derefs of "+fn+" returned different outcomes:\n  "+line(outcomes[0])+"\n  "+line(outcomes[k]))
 					break
 				}
